@@ -2,6 +2,12 @@
 """Regenerates MANIFEST.json from the table below (kept in one place so it stays valid)."""
 import json
 CLAIMED = {
+ "C09": dict(tech="stateless model checking of the implementation under a controlled scheduler: preemption-bounded enumeration of all interleavings of a writer program, a closer (6 paths) and a WriteControl caller, scheduling points at every channel/mutex/transport operation (AST-instrumented overlay)",
+             text="On the global event order of every explored schedule: nothing follows the first close frame on the wire; every message-level write that begins after the closing call returned fails (ErrCloseSent when valid); messages reported as sent are exactly the complete data messages on the wire.",
+             note="preemption bound 2 (quick) / 3-4 (thorough); memory-model reorderings not modelled; calls overlapping the closing call may be linearised before it", ref="§4 C09"),
+ "C11": dict(tech="stateless model checking under a controlled scheduler with virtual time; every explored schedule is also run in a -race build whose thread hand-offs are invisible to ThreadSanitizer (futex baton in norace code), making the race detector a per-schedule oracle",
+             text="All preemption-bounded interleavings of reader (default handlers write), writer, 0-2 WriteControl callers (with/without deadline), Close and the clock passing the deadline: no race report, wire decodes as whole frames with control frames only between them, reported-sent == on the wire, a deadline-carrying WriteControl never waits past its deadline without a pending timer, timeouts do not poison the connection, no deadlock.",
+             note="races = those ThreadSanitizer can see on explored schedules; race flavour explores one preemption less than the plain flavour", ref="§4 C11"),
  "C07": dict(tech="model checking (small-scope exhaustive enumeration): every byte string up to a length as a frame stream x tails x role x compression, structured hostile frame sequences, every prefix / grammar variant of Dial and CONNECT replies, every short string over a separator alphabet as request header values - all on the real code",
              text="Oracle: no panic (recovered and attributed), every call returns, the read loop needs at most bytes+3 calls, allocation (TotalAlloc, single goroutine) <= 1 MiB + 1100 x bytes fed, delivered bytes proportional to received bytes.",
              note="inputs longer than the stated bounds that share no structure with the enumerated ones are outside the claim", ref="§4 C07"),
@@ -67,6 +73,7 @@ m = {
    "add_only": True,
  },
  "engines": [
+   {"name": "vrt", "path": "engine/vrt", "serves_properties": ["C09","C11","C19","C20"], "kind_free_text": "controlled scheduler (one goroutine runs at a time; points at channel/mutex/once/pool/transport/timer operations; virtual clock; futex baton under -race) driven by the explorer; sources instrumented by engine/instrument through a go build overlay"},
    {"name": "explore", "path": "engine/explore", "serves_properties": sorted(CLAIMED), "kind_free_text": "deviation-bounded stateless DFS over harness choices executed on the real implementation; process-sharded; replay files"},
  ],
  "checks": [],
